@@ -48,6 +48,7 @@ def sim_cases(draw, max_tasks: int = 10, max_hosts: int = 4, max_workers: int = 
     tail = draw(st.integers(0, 1 << 30))
     inject = draw(st.one_of(st.none(), st.none(), st.none(), st.integers(1, 6)))
     return {"job": spec, "cluster": cluster, "decisions": decisions, "tail_seed": tail, "inject": inject,
+            "reuse_pre": draw(st.integers(0, 5)) == 0,
             "slow_data": draw(st.sampled_from([False, True, "dups"])) if bias == "replication" else False}
 
 
@@ -88,7 +89,14 @@ def run_sim(case: dict):
         ch = Chooser(prefix=case["log"], tail_seed=None)
     else:
         ch = Chooser(prefix=case["decisions"], tail_seed=case["tail_seed"])
-    res = simulate(job, case["cluster"], ch, case.get("inject"), slow_data=case.get("slow_data") or False)
+    pre = None
+    if case.get("reuse_pre"):
+        # the Preschedule of a job is computed once and may serve several runs (other cluster shapes, a retry): a first, deterministic
+        # run on one worker, then the run under test with the SAME Preschedule object -- nothing of the first run may leak into it
+        first = simulate(job, [{"workers": 1, "gpu": [any(t["gpu"] for t in case["job"]["tasks"])]}],
+                         Chooser(prefix=[], tail_seed=(case["tail_seed"] ^ 0x5BD1) & 0x3FFFFFFF))
+        pre = first.get("pre")
+    res = simulate(job, case["cluster"], ch, case.get("inject"), slow_data=case.get("slow_data") or False, pre=pre)
     res["job"] = job
     res["chooser"] = ch
     return res
